@@ -181,10 +181,13 @@ type runner struct {
 	applied []*blockchain.Block
 	fails   []corr.Fail
 	cached  *snapshot // state after the last candidate if it was verified to be unchanged
+	// volReported: the volatile-state oracle (volatile.go) fired in this case already
+	volReported bool
 }
 
 type snapshot struct {
 	dump, bft, abi string
+	vol            string // volatile executer state (volatile.go)
 	tip            []byte
 	fin            uint32
 }
@@ -193,7 +196,7 @@ func (r *runner) snap() snapshot {
 	if r.cached != nil {
 		return *r.cached
 	}
-	return snapshot{dump: r.n.DumpDBString(), bft: r.n.BFTDump(), abi: r.n.ABI.String(), tip: append([]byte{}, r.n.Tip().Header.ID...), fin: r.n.Finalized()}
+	return snapshot{dump: r.n.DumpDBString(), bft: r.n.BFTDump(), abi: r.n.ABI.String(), vol: volatileState(r.n), tip: append([]byte{}, r.n.Tip().Header.ID...), fin: r.n.Finalized()}
 }
 
 func (r *runner) fail(op int, sig, detail string) {
@@ -362,6 +365,11 @@ func (r *runner) candidate(i int, w []string) string {
 		}
 		if len(events) != 0 {
 			changed = append(changed, "events "+renderEvents(events))
+		}
+		if after.vol != before.vol && !r.volReported {
+			// reported once per case (every rejected candidate would repeat it); the node is not rebuilt for it
+			r.volReported = true
+			r.fail(i, "c03-rejected-block-left-traces:volatile-state", label+": volatile executer state "+before.vol+" -> "+after.vol)
 		}
 		if len(changed) != 0 {
 			r.fail(i, "c03-rejected-block-left-traces", label+": "+trunc(strings.Join(changed, " | "), 600))
